@@ -177,6 +177,40 @@ class JoinedSeq(Sym):
         return 1
 
 
+class MappedSeq(Sym):
+    """`seq|map(attribute="a.b")` over a proxy sequence: the elements are the attributes of the elements (same provenance as `x.a.b` in a loop)."""
+
+    def __init__(self, base, attr):
+        super().__init__(f"{base._p}|map(attribute={attr!r})")
+        object.__setattr__(self, "_base", base)
+        object.__setattr__(self, "_attr", attr)
+
+    def __iter__(self):
+        for item in self._base:
+            cur = item
+            for part in self._attr.split("."):
+                cur = getattr(cur, part)
+            yield cur
+
+    def __len__(self):
+        return len(self._base)
+
+
+def _map_filter(f):
+    pass_arg = getattr(f, "jinja_pass_arg", None)
+
+    def g(*args, **k):
+        idx = 1 if pass_arg is not None else 0
+        x = args[idx] if len(args) > idx else None
+        if isinstance(x, Sym) and len(args) == idx + 1 and set(k) == {"attribute"} and isinstance(k["attribute"], str):
+            return MappedSeq(x, k["attribute"])
+        return generic(*args, **k)
+    generic = _generic_filter("map", f)
+    if pass_arg is not None:
+        g.jinja_pass_arg = pass_arg
+    return g
+
+
 def wrap_filter(name, f):
     def g(x, *a, **k):
         if isinstance(x, (Sym, HoleStr)):
@@ -215,6 +249,8 @@ def make_env(template_dir=None):
             env.filters[name] = lambda x, _f=f: x if isinstance(x, Sym) else _f(x)
         elif name == "first":
             env.filters[name] = _first_filter(f)
+        elif name == "map":
+            env.filters[name] = _map_filter(f)
         else:
             env.filters[name] = _generic_filter(name, f)
     for name in ("none", "defined", "undefined", "string", "mapping", "iterable", "sequence"):
@@ -236,6 +272,8 @@ def _generic_filter(name, f):
             if a or k:
                 suffix = "(" + ",".join([_p(v) if isinstance(v, (Sym, HoleStr)) else repr(v) for v in a] +
                                         [f"{n}={_p(v) if isinstance(v, (Sym, HoleStr)) else repr(v)}" for n, v in sorted(k.items())]) + ")"
+            if name in ("lower", "upper", "capitalize") and not suffix:
+                return Sym(f"{x._p}.{name}()")          # the filter is the str method: one provenance for both spellings
             return Sym(f"{x._p}|{name}{suffix}")
         return f(*args, **k)
     if pass_env is not None:
@@ -437,8 +475,41 @@ def container_consistent(d):
 
 def render_nodes(env, tree, body, params, maxlen=2, fixed=None, prune=container_consistent):
     """Render a list of Jinja nodes as a region with the given parameter names bound to Sym proxies of the same name."""
+    body = with_enclosing_sets(tree, body, params)
     mac = compile_macro(env, tree, params, body)
     return explore(lambda: str(mac(*[Sym(p) for p in params])), maxlen=maxlen, fixed=fixed, prune=prune)
+
+
+def with_enclosing_sets(tree, body, params):
+    """A region cut out of a template may read variables bound by `{% set x = ... %}` statements that precede it in an enclosing scope: those
+    statements (transitively) are put in front of the region, in template order.  Names that are bound nowhere stay undefined."""
+    body = list(body)
+    if not body:
+        return body
+    first = min((getattr(n, "lineno", 10 ** 9) for n in body), default=10 ** 9)
+    inside = {id(x) for n in body for x in n.find_all(nodes.Node)} | {id(n) for n in body}
+
+    def loads(ns):
+        return {x.name for n in ns for x in ([n] if isinstance(n, nodes.Name) else []) + list(n.find_all(nodes.Name)) if x.ctx == "load"}
+
+    def stores(ns):
+        return {x.name for n in ns for x in n.find_all(nodes.Name) if x.ctx in ("store", "param")}
+    have = set(params) | stores(body)
+    want = loads(body) - have
+    chosen = []
+    assigns = [a for a in tree.find_all(nodes.Assign) if isinstance(a.target, nodes.Name) and id(a) not in inside and getattr(a, "lineno", 0) <= first]
+    changed = True
+    while changed:
+        changed = False
+        for a in assigns:
+            if a.target.name in want and a not in chosen:
+                chosen.append(a)
+                have.add(a.target.name)
+                want |= loads([a.node]) - have
+                changed = True
+        want -= have
+    chosen.sort(key=lambda a: getattr(a, "lineno", 0))
+    return chosen + body
 
 
 def split_output(out_node, predicate):
